@@ -23,16 +23,16 @@ import (
 // C07 — IKE SA keys follow RFC 7296 sections 2.13-2.14 for every negotiable suite.
 
 type c07Case struct {
-	K        string `json:"k"` // derive | twoparty
-	PRF      int    `json:"prf"`
-	Integ    int    `json:"integ"`
-	Encr     int    `json:"encr"`
-	DH       int    `json:"dh"` // 0: group 2, 1: group 14
-	NonceLen int    `json:"nonce_len"`
-	SecLen   int    `json:"secret_len"`
-	SPI      int    `json:"spi_pair"`
-	Pat      int    `json:"pattern"`
-	Via      string `json:"via"` // raw | proposal
+	K        string   `json:"k"` // derive | twoparty
+	PRF      int      `json:"prf"`
+	Integ    int      `json:"integ"`
+	Encr     int      `json:"encr"`
+	DH       int      `json:"dh"` // 0: group 2, 1: group 14
+	NonceLen int      `json:"nonce_len"`
+	SecLen   int      `json:"secret_len"`
+	SPI      int      `json:"spi_pair"`
+	Pat      int      `json:"pattern"`
+	Via      string   `json:"via"`            // raw | proposal
 	Then     *c07Case `json:"then,omitempty"` // a second derivation after which the first SA is inspected again
 }
 
@@ -315,7 +315,8 @@ func evalC07TwoParty(c *engine.Ctx, cs c07Case) {
 	restore := engine.Install(seam)
 	defer restore()
 	var a *big.Int
-	var A, B, shared []byte
+	var A, B, shared, shared2 []byte
+	var peerB *big.Int
 	var resp *security.IKESAKey
 	pi := engine.Catch(func() {
 		a, err = security.GenerateRandomNumber()
@@ -327,7 +328,11 @@ func evalC07TwoParty(c *engine.Ctx, cs c07Case) {
 		if err != nil {
 			return
 		}
-		shared = ini.DhInfo.GetSharedKey(a, new(big.Int).SetBytes(B))
+		// the initiator parses the peer's public value once and keeps it (a re-processed response, a second key
+		// object and the reference below all use the same *big.Int)
+		peerB = new(big.Int).SetBytes(B)
+		shared = ini.DhInfo.GetSharedKey(a, peerB)
+		shared2 = ini.DhInfo.GetSharedKey(a, peerB)
 		err = ini.GenerateKeyForIKESA(nonce, shared, si, sr)
 	})
 	if pi != nil {
@@ -338,8 +343,13 @@ func evalC07TwoParty(c *engine.Ctx, cs c07Case) {
 		c.Violate("twoparty/error", errStr(err), cs)
 		return
 	}
+	if !bytes.Equal(peerB.Bytes(), new(big.Int).SetBytes(B).Bytes()) || !bytes.Equal(shared, shared2) {
+		c.Violate("twoparty/peer-value-not-reusable", fmt.Sprintf("after GetSharedKey the caller's parsed peer value is %s (was %s); the same call repeated gives %s, first %s",
+			engine.Hex(trunc(peerB.Bytes(), 12)), engine.Hex(trunc(B, 12)), engine.Hex(trunc(shared2, 12)), engine.Hex(trunc(shared, 12))), cs)
+		return
+	}
 	g := ref.GroupByID(dhIDs[cs.DH])
-	refShared := g.Shared(a, new(big.Int).SetBytes(B))
+	refShared := g.Shared(a, peerB)
 	want := ref.DeriveIKE(p, ig, el, nonce, refShared, si, sr)
 	if sig, what := checkSA(resp, want, p, ig); sig != "" {
 		c.Violate("twoparty/responder/"+sig, what, cs)
